@@ -277,3 +277,14 @@ with_fine("C09", "c09f", "harness/c09_felock.c")
 with_fine("C12", "c12f", "harness/c13_reap.c", "-DPROP_C12")
 with_fine("C13", "c13f", "harness/c13_reap.c")
 with_fine("C14", "c14f", "harness/c14_once.c")
+
+
+def _sleep_e2(name):
+    return binc(name, "E2_EXCLUDE=none engine/build_e2.sh %s harness/c06_sleep_e2.c" % name, "build/%s/%s --stats {stats} --tier quick --jobs {jobs}" % (name, name),
+                "build/%s/%s --stats {stats} --tier thorough --jobs {jobs}" % (name, name), "E2 unitmc (explicit-state, access granularity, SC and x86-TSO)")
+
+
+for _pid, _n in (("C06", "c06e2"), ("C04", "c04e2"), ("C05", "c05e2")):
+    _b = PROPERTIES[_pid]["components"]
+    PROPERTIES[_pid]["components"] = lambda tier, b=_b, n=_n: b(tier) + [_sleep_e2(n)]
+    PROPERTIES[_pid]["rule"] += "; plus every interleaving (SC and x86-TSO) of 2-3 participants on the real sleeper stack / sleep queue code (E2)"
